@@ -17,15 +17,34 @@ var GoNames = map[string]map[string]string{
 		"TopicData.PartitionData.Index": "Partition", "TopicData.PartitionData.Records": "RecordSet"},
 	"ProduceResponse": {"Responses": "Topics", "Responses.Name": "Topic", "Responses.PartitionResponses": "Partitions",
 		"Responses.PartitionResponses.Index": "Partition", "Responses.PartitionResponses.LogAppendTimeMs": "LogAppendTime"},
-	"FetchRequest":  {"MaxWaitMs": "MaxWaitTime", "ForgottenTopicsData": "ForgottenTopics"},
-	"FetchResponse": {"Responses": "Topics", "Responses.Partitions.PartitionIndex": "Partition", "Responses.Partitions.Records": "RecordSet"},
-	"ListOffsetsRequest":  {"Topics.Name": "Topic", "Topics.Partitions.PartitionIndex": "Partition"},
-	"ListOffsetsResponse": {"Topics.Name": "Topic", "Topics.Partitions.PartitionIndex": "Partition"},
-	"JoinGroupResponse":   {"Leader": "LeaderID"},
-	"SyncGroupResponse":   {"Assignment": "Assignments"},
-	"OffsetFetchResponse": {"Topics.Partitions.CommittedLeaderEpoch": "ComittedLeaderEpoch"},
+	"FetchRequest":            {"MaxWaitMs": "MaxWaitTime", "ForgottenTopicsData": "ForgottenTopics"},
+	"FetchResponse":           {"Responses": "Topics", "Responses.Partitions.PartitionIndex": "Partition", "Responses.Partitions.Records": "RecordSet"},
+	"ListOffsetsRequest":      {"Topics.Name": "Topic", "Topics.Partitions.PartitionIndex": "Partition"},
+	"ListOffsetsResponse":     {"Topics.Name": "Topic", "Topics.Partitions.PartitionIndex": "Partition"},
+	"JoinGroupResponse":       {"Leader": "LeaderID"},
+	"SyncGroupResponse":       {"Assignment": "Assignments"},
+	"OffsetFetchResponse":     {"Topics.Partitions.CommittedLeaderEpoch": "ComittedLeaderEpoch"},
 	"TxnOffsetCommitRequest":  {"Topics.Partitions.PartitionIndex": "Partition"},
 	"TxnOffsetCommitResponse": {"Topics.Partitions.PartitionIndex": "Partition"},
+	"DeleteGroupsRequest":     {"GroupsNames": "GroupIDs"},
+	"DeleteGroupsResponse":    {"Results": "Responses"},
+	"ElectLeadersRequest":     {"TopicPartitions.Partitions": "PartitionIDs"},
+	"ElectLeadersResponse":    {"ThrottleTimeMs": "ThrottleTime", "ReplicaElectionResults.PartitionResult": "PartitionResults"},
+	"DescribeConfigsRequest":  {"Resources.ConfigurationKeys": "ConfigNames"},
+	"DescribeConfigsResponse": {"Results": "Resources", "Results.Configs": "ConfigEntries", "Results.Configs.Name": "ConfigName",
+		"Results.Configs.Value": "ConfigValue", "Results.Configs.Synonyms": "ConfigSynonyms", "Results.Configs.Synonyms.Name": "ConfigName",
+		"Results.Configs.Synonyms.Value": "ConfigValue", "Results.Configs.Synonyms.Source": "ConfigSource",
+		"Results.Configs.Documentation": "ConfigDocumentation"},
+	"DeleteAclsRequest":  {"Filters.PatternTypeFilter": "ResourcePatternTypeFilter"},
+	"DeleteAclsResponse": {"FilterResults.MatchingAcls.PatternType": "ResourcePatternType"},
+	// kafka-go nests the fields of the DescribeAcls request in a struct `Filter`
+	"DescribeAclsRequest": {"ResourceTypeFilter": "Filter.ResourceTypeFilter", "ResourceNameFilter": "Filter.ResourceNameFilter",
+		"PatternTypeFilter": "Filter.ResourcePatternTypeFilter", "PrincipalFilter": "Filter.PrincipalFilter", "HostFilter": "Filter.HostFilter",
+		"Operation": "Filter.Operation", "PermissionType": "Filter.PermissionType"},
+	"AlterClientQuotasRequest":            {"Entries.Entity": "Entities"},
+	"AlterClientQuotasResponse":           {"Entries": "Results", "Entries.Entity": "Entities"},
+	"DescribeClientQuotasResponse":        {"Entries.Entity": "Entities"},
+	"AlterPartitionReassignmentsResponse": {"Responses": "Results"},
 }
 
 func canon(s string) string {
@@ -38,18 +57,25 @@ func canon(s string) string {
 	return b.String()
 }
 
-// goField finds the Go field of struct type t for the schema field at path (msg-relative).
-func goField(msg string, t reflect.Type, path, name string) (int, bool) {
+// goField finds the Go field of struct type t for the schema field at path (msg-relative); the result is an index path
+// for reflect.Value.FieldByIndex (a mapped name may descend into a nested Go struct: "Filter.Operation").
+func goField(msg string, t reflect.Type, path, name string) ([]int, bool) {
 	want := name
 	if m := GoNames[msg]; m != nil {
 		if g, ok := m[path]; ok {
-			want = g
-			for i := 0; i < t.NumField(); i++ {
-				if t.Field(i).Name == want {
-					return i, true
+			var idx []int
+			for _, part := range strings.Split(g, ".") {
+				if t.Kind() != reflect.Struct {
+					return nil, false
 				}
+				f, ok := t.FieldByName(part)
+				if !ok {
+					return nil, false
+				}
+				idx = append(idx, f.Index...)
+				t = f.Type
 			}
-			return 0, false
+			return idx, true
 		}
 	}
 	c := canon(want)
@@ -62,8 +88,8 @@ func goField(msg string, t reflect.Type, path, name string) (int, bool) {
 			continue
 		}
 		if canon(f.Name) == c {
-			return i, true
+			return []int{i}, true
 		}
 	}
-	return 0, false
+	return nil, false
 }
